@@ -220,6 +220,7 @@ type cllWalk struct {
 	hist []string
 	// states after every label (for the "trace" line)
 	states []cllCS
+	fwds   []bool
 	quiet  bool // replaying a prefix: nothing is emitted
 	steps  int
 	// fwd: the history is inside the label set of the forward-rollout theorems (reconciles, workload progress,
@@ -298,6 +299,7 @@ func (w *cllWalk) do(label string) {
 	}
 	w.hist = append(w.hist, label)
 	w.states = append(w.states, post)
+	w.fwds = append(w.fwds, w.fwd)
 	w.steps++
 }
 
@@ -342,7 +344,7 @@ func (w *cllWalk) trace() {
 	if w.quiet {
 		return
 	}
-	w.c.EmitAs("closedloop", "trace", J{"scenario": w.sc, "labels": w.hist, "states": w.states}, nil)
+	w.c.EmitAs("closedloop", "trace", J{"scenario": w.sc, "labels": w.hist, "states": w.states, "fwd": w.fwds}, nil)
 }
 
 var cllRound = []string{"ro", "br", "env", "approve", "tick"}
